@@ -32,6 +32,8 @@ class Ctx:
             "is_none": lambda x: x is None,
             "seq": lambda x: list(x) if x is not None else None,
             "fresh": lambda x: True,
+            "uf_str": lambda tag, *a: __import__("pyvc.contracts", fromlist=["RUNTIME_FNS"]).RUNTIME_FNS[tag](*a),
+            "uf_any": lambda tag, *a: __import__("pyvc.contracts", fromlist=["RUNTIME_FNS"]).RUNTIME_FNS[tag](*a),
             "same": self._same,
             # now(old(e)): the live object that the pre-state value e refers to (old() is evaluated on a deep copy)
             "now": lambda x: self.alias.get(id(x), x),
